@@ -15,6 +15,7 @@ pub mod refmodel;
 pub mod rig;
 pub mod scene;
 pub mod util;
+pub mod world;
 
 use std::collections::{BTreeMap, HashSet};
 use std::time::Instant;
